@@ -62,8 +62,8 @@ def setup_worker():
 
 def plan(tier):
     if tier == "quick":
-        return [("simfs", {}, 480, 10), ("realkill", {"real": 1}, 48, 3)]
-    return [("simfs", {}, 40000, 50), ("realkill", {"real": 1}, 1600, 10)]
+        return [("simfs", {}, 480, 10), ("realkill", {"real": 1}, 48, 3), ("handles", {"handles": 2}, 240, 10)]
+    return [("simfs", {}, 40000, 50), ("realkill", {"real": 1}, 1600, 10), ("handles", {"handles": 2}, 20000, 50)]
 
 
 # keys are file names: "k1.tmp" / "k1~" style siblings are ordinary, distinct keys
@@ -71,16 +71,21 @@ KEYS = ["k1", "k2", "dir/k3", "dir/sub/k4", "other/k5", "k1.tmp", "dir/k3.tmp", 
 ROOT = "/kv"
 
 
-def gen_history(ch):
-    nkeys = 1 + ch.draw(3, "nkeys")
+def gen_history(ch, reuse=False):
+    nkeys = 1 + ch.draw(2 if reuse else 3, "nkeys")
     keys = []
     pool = list(KEYS)
     for _ in range(nkeys):
         keys.append(pool.pop(ch.draw(len(pool), "key")))
-    nsets = 1 + ch.draw(4, "nsets")
+    nsets = (2 + ch.draw(4, "nsets")) if reuse else (1 + ch.draw(4, "nsets"))
     hist = []
     for i in range(nsets):
         k = keys[ch.draw(len(keys), "which")]
+        earlier = [l for kk, l in hist if kk == k]
+        if reuse and len(earlier) >= 1 and ch.draw(2, "reuse"):
+            # the application writes a value this key already had (A, B, A): "nothing changed" shortcuts must not skip it
+            hist.append((k, earlier[max(0, len(earlier) - 2)]))
+            continue
         if ch.chance(1, 8, "big"):
             lit = big_literal(ch)
         elif nsets <= 2 and ch.chance(1, 24, "huge"):
@@ -98,7 +103,7 @@ def _values(hist):
 def scenario(ch, cfg):
     if cfg.get("real"):
         return scenario_real(ch, cfg)
-    hist = gen_history(ch)
+    hist = gen_history(ch, reuse=bool(cfg.get("handles")))
     out = _run_simfs(ch, cfg, hist, 0)
     foreign = out.pop("foreign", [])
     if foreign and not out["violations"]:
@@ -122,7 +127,7 @@ def _run_simfs(ch, cfg, hist, nextra):
     fs = SimFS(w, ROOT)
     install_fs(fc, fs)
     # one or two live handles (store objects) on the same directory
-    nh = 1 + (ch.draw(3, "handles") == 0)
+    nh = 2 if cfg.get("handles") else 1 + (ch.draw(3, "handles") == 0)
     stores = [kvs.KeyValueStorage(ROOT) for _ in range(nh)]
     for st in stores:
         sim_cache(st.cache, w)
@@ -133,7 +138,7 @@ def _run_simfs(ch, cfg, hist, nextra):
         stats["probe_two_handles"] += 1
     # gets issued by the application between the sets, through any handle (they populate that handle's cache)
     pregets = {i: [(ch.draw(nh, "pgh"), hist[ch.draw(len(hist), "pgk")][0]) for _ in range(ch.draw(3, "npg"))]
-               for i in range(nextra, len(hist)) if ch.draw(3, "preget") == 0}
+               for i in range(nextra, len(hist)) if ch.draw(3, "preget") == 0 or (cfg.get("handles") and ch.draw(2, "preget2"))}
     # at most one injected I/O error: the k-th fsync / write / create of the (non-prepended) history fails
     iofault = None
     if ch.draw(5, "iofault") == 0:
